@@ -11,6 +11,7 @@
 //       state comparison (mjcmp.h + mj_getState) before/after mjd_transitionFD and mjd_inverseFD
 //   CD fp fm h n x.. xp.. xm..    the static clampedDiff of engine_derivative_fd.c (fp / fm: x_plus / x_minus given or NULL)
 //   E limited centered ctrl eps lo hi   one hinge, motor (gear 2), actuatorfrc sensor: the D and B entries of mjd_transitionFD
+// xflags: 128 three extra bodies (hinge+slide / ball / free) with an off-centre ellipsoid-fluid capsule / cylinder / sphere / ellipsoid / box, density-only / viscosity-only / both
 // xflags: 64 force-limited actuators with a velocity term that saturate (velocity servo / affine gain, tiny forcerange)
 // xflags: 1 fluid (density, viscosity, one ellipsoid-fluid geom)   2 damper + cylinder + intvelocity actuators
 //         4 muscle actuator   8 DC motor actuator   16 PID actuator   32 smooth model (no contacts/limits/friction/equalities)
@@ -80,6 +81,28 @@ static mjModel* build(uint64_t seed, unsigned feat, int nbody, unsigned xf, int 
       const char* e = mjs_setToPID(a, 4.0, &kv, NULL, &ki, &imax, NULL, 0, 0);
       if (e && e[0]) fprintf(stderr, "c25: pid: %s\n", e);
       extra++;
+    }
+  }
+  if (xf & 128) {
+    // ellipsoid-fluid geoms of every shape (two or three equal semi-axes included: capsule, cylinder, sphere), off-centre, on
+    // hinge+slide / ball / free parents; medium with density only, viscosity only or both (chosen by the seed)
+    mjg_rng RF = { seed * 419 + 23 }; int mode = (int)(seed % 3);
+    s->option.density = mode == 1 ? 0 : mjg_range(&RF, 1, 1000); s->option.viscosity = mode == 0 ? 0 : mjg_range(&RF, 0.001, 0.5);
+    if (mjg_chance(&RF, 0.5)) { s->option.wind[0] = mjg_range(&RF, -1, 1); s->option.wind[1] = mjg_range(&RF, -1, 1); }
+    static const int gt[5] = {mjGEOM_CAPSULE, mjGEOM_CYLINDER, mjGEOM_SPHERE, mjGEOM_ELLIPSOID, mjGEOM_BOX};
+    for (int k = 0; k < 3; k++) {
+      mjsBody* fb = mjs_addBody(mjs_findBody(s, "world"), NULL); char n[16]; snprintf(n, sizeof(n), "xfl%d", k); mjs_setName(fb->element, n);
+      fb->pos[0] = 3 + k; fb->pos[2] = 1;
+      int jk = (int)((seed + k) % 3);
+      if (jk == 0) { mjsJoint* j = mjs_addJoint(fb, NULL); j->type = mjJNT_HINGE; j->axis[0] = 0.3; j->axis[1] = 1; j->axis[2] = 0.2; mjsJoint* j2 = mjs_addJoint(fb, NULL); j2->type = mjJNT_SLIDE; j2->axis[0] = 1; j2->axis[1] = 0.2; j2->axis[2] = -0.4; }
+      else if (jk == 1) { mjsJoint* j = mjs_addJoint(fb, NULL); j->type = mjJNT_BALL; }
+      else { mjsJoint* j = mjs_addJoint(fb, NULL); j->type = mjJNT_FREE; }
+      mjsGeom* g = mjs_addGeom(fb, NULL); g->type = gt[mjg_int(&RF, 5)]; g->contype = 0; g->conaffinity = 0;
+      double sc = mjg_chance(&RF, 0.5) ? 1.0 : 0.3;     // decimetre- and centimetre-sized geoms
+      g->size[0] = sc * mjg_range(&RF, 0.04, 0.2); g->size[1] = sc * mjg_range(&RF, 0.04, 0.2); g->size[2] = sc * mjg_range(&RF, 0.04, 0.2);
+      for (int i = 0; i < 3; i++) g->pos[i] = mjg_range(&RF, -0.15, 0.15);
+      if (mjg_chance(&RF, 0.5)) mjg_quat(&RF, g->quat);
+      g->fluid_ellipsoid = 1; g->fluid_coefs[0] = 0.5; g->fluid_coefs[1] = 0.25; g->fluid_coefs[2] = 1.5; g->fluid_coefs[3] = 1.0; g->fluid_coefs[4] = 1.0;
     }
   }
   if (nsj > 0 && (xf & 64)) {
